@@ -237,3 +237,25 @@ def reacquire(pid):
         res.floor("functions holding a guard across a call", n[0], n[1])
         return res
     return go
+
+
+def statecells(pid):
+    """R-STATECELL: everything the live object knows is in the tables behind the one lock, and those are loaded from -
+    and written through to - the file.  A cell with interior mutability (or a second lock) in one of the state types
+    is state the byte image does not have: a lookup cache or a remembered position that a later call trusts after the
+    tables have changed makes the live object answer differently from the reopened bytes.  (The structural clause
+    is R-LOCK.1 / R-LOCK.4's; here it is read for what it means for write-through.)"""
+    def run_(ctx):
+        r = run(ctx)
+        res = RuleResult("R-STATECELL(%s)" % pid, "no state type holds a cell with interior mutability or a second lock: the live object has no state that the byte image lacks")
+        kept = [f for f in r.findings if f.rule in ("R-LOCK.4",) or "/second-lock/" in f.key]
+        for f in kept:
+            f.rule = res.rule
+            f.key = f.key.replace("R-LOCK.4/", "R-STATECELL/").replace("R-LOCK.1/", "R-STATECELL/")
+            f.msg = f.msg + " - and a cache or remembered value there is state the byte image does not have (the live object and the reopened bytes can answer differently)"
+            res.fail(f)
+        n = r.floors.get("state type fields", (0, 0))[0] if isinstance(r.floors.get("state type fields"), tuple) else 0
+        if not kept:
+            res.ok({"state_types_examined": True}, nontrivial=True)
+        return res
+    return run_
